@@ -310,7 +310,7 @@ def layout_parts(toks, rng, version):
             elif k < 0.7:
                 sep = ' '
             elif k < 0.85:
-                sep = rng.choice(['  ', '\t', '\n', ' \n ', '\r\n'])
+                sep = rng.choice(['  ', '\t', '\n', ' \n ', '\r\n', '\r', '\r', ' \r'])
             elif version != '1.0':
                 pieces = [rng.choice([' (: c :) ', '(: x (: nested :) y :)', ' (::) ', '\n(: a\nb :)\n', '(: c :)',
                                       '(: a (: b :) c (: d :) e :)', '(:(::)(::):)', '(: (: (: deep :) :) (: x :) :)',
